@@ -12,7 +12,7 @@ namespace Tval
 
 inductive GKind where
   | line      -- non-empty LineString
-  | lineEmpty -- empty LineString (is a LineString for LINESTRING_ONLY, fails NULL GEOMETRY)
+  | lineEmpty -- empty LineString (skipped by LINESTRING_ONLY validators, fails NULL GEOMETRY)
   | multi     -- MultiLineString
   | other     -- None / any other type
 deriving DecidableEq, Repr, Inhabited
@@ -34,6 +34,9 @@ structure Oracle (G : Type) where
 def GKind.isLineString : GKind → Bool
   | .line | .lineEmpty => true
   | _ => false
+
+/-- what a LINESTRING_ONLY validator accepts: a LineString that is not empty (`_validate` skips the rest, F21) -/
+def GKind.gatePass (k : GKind) : Bool := k.isLineString && !(k == .lineEmpty)
 
 structure Cfg where
   allowFix : Bool
@@ -69,7 +72,7 @@ def applyFail (O : Oracle G) (cfg : Cfg) (v : Validator) (s : RowSt G) (glob' er
 
 /-- `Validation._validate` -/
 def validateOne (O : Oracle G) (cfg : Cfg) (frame : List G) (idx : Nat) (v : Validator) (s : RowSt G) : RowSt G :=
-  if v.lsOnly && !(O.kind s.geom).isLineString then { s with ignore := true }
+  if v.lsOnly && !(O.kind s.geom).gatePass then { s with ignore := true }
   else if !O.valid v frame s.geom idx && !(s.errs.contains (errRead O frame idx v s)) then
     applyFail O cfg v s (globAfter O frame idx v s) (errRead O frame idx v s)
   else { s with ignore := false, glob := globAfter O frame idx v s }
